@@ -1890,8 +1890,6 @@ class HistSuite(Suite):
         o = Suite.oracle(self, case, h)
         if o:
             return (o[0], o[1] + " at '%s'" % case.line[:80])
-        if "geo-mismatch" in h:
-            return ("hist:geo-mismatch", "harness built with another geometry than the history expects")
         if "ALLOCATOR-MISUSE" in h:
             return ("hist:allocator-misuse", "a block was released twice or through the wrong allocator at '%s'" % case.line[:80])
         if "NOT-NUL-TERMINATED" in h or "CSTR-MISMATCH" in h:
